@@ -306,6 +306,117 @@ func c18RunCase(t *testing.T, out *vh.Out, wrapped string, kinds []string, mode 
 	}
 }
 
+// c18WrapReq: the request whose response gets wrapped
+func c18WrapReq(kind, root string) *logical.Request {
+	switch kind {
+	case "secret":
+		return &logical.Request{Operation: logical.ReadOperation, Path: "rec/data/a", ClientToken: root}
+	case "login":
+		return &logical.Request{Operation: logical.UpdateOperation, Path: "auth/token/create", ClientToken: root,
+			Data: map[string]any{"policies": []string{"default"}, "ttl": "1h"}}
+	}
+	return &logical.Request{Operation: logical.ListOperation, Path: "rec/data/", ClientToken: root}
+}
+
+// c18InfoString renders (creation_path, creation_ttl in seconds) of a wrap_info / a lookup response
+func c18InfoString(path string, ttl time.Duration) string {
+	return vh.Sprintf("path:%s/ttl:%d", path, int64(ttl/time.Second))
+}
+
+// c18History: the wrapping information through rewrap generations, sequentially on one core. Ops:
+//   hist <path> <ttl-seconds>  => path:<wrap_info.creation_path>/ttl:<wrap_info.ttl>        (original requester's wrap_info)
+//   hlookup                    => path:<creation_path>/ttl:<creation_ttl>/time:<fresh|stale> (sys/wrapping/lookup on the live token)
+//   hrewrap 3|1                => path:…/ttl:… of the new wrap_info (third party) | outcome class (first party: denied)
+//   hunwrap                    => outcome of a third-party unwrap of the live token
+func c18History(t *testing.T, out *vh.Out, rng *vh.Rand, rounds int) {
+	_, c, root, _ := c19Setup(t)
+	defer func() { _ = c.Shutdown() }()
+	if cl, _ := vhReq(c, logical.UpdateOperation, "rec/data/a", root, map[string]any{"value": c18Canary}); cl != "ok" {
+		t.Fatalf("seed write: %s", cl)
+	}
+	other := vhCreateToken(t, c, root, map[string]any{"ttl": "1h", "policies": []string{"default", "c19"}})
+	ttls := []time.Duration{time.Hour, 30 * time.Minute, 90 * time.Second, 7 * time.Minute}
+	do := func(req *logical.Request) (*logical.Response, error) {
+		req.SetTokenEntry(nil)
+		return c.HandleRequest(vhRootCtx(), req)
+	}
+	class := func(resp *logical.Response, err error) string {
+		cl := vhClass(resp, err)
+		if err != nil && strings.Contains(err.Error(), "wrapping token is not valid") {
+			cl = "err:invalid-wrapping-token"
+		}
+		return cl
+	}
+	for round := 0; round < rounds; round++ {
+		kind := c18Wrapped[round%len(c18Wrapped)]
+		ttl := ttls[rng.Intn(len(ttls))]
+		// the fixed history first, then random ones: L = lookup, 3 / 1 = third- / first-party rewrap, U = unwrap
+		steps := "L3L3LU"
+		if round >= len(c18Wrapped) {
+			steps = ""
+			for i, n := 0, 2+rng.Intn(6); i < n; i++ {
+				steps += string("L33L3L1U"[rng.Intn(8)])
+			}
+			steps += "LUL"
+		}
+		req := c18WrapReq(kind, root)
+		req.WrapInfo = &logical.RequestWrapInfo{TTL: ttl}
+		t0 := time.Now().Add(-time.Second)
+		resp, err := do(req)
+		out.Reset()
+		if err != nil || resp == nil || resp.WrapInfo == nil || resp.WrapInfo.Token == "" {
+			out.Op("nowrap:"+class(resp, err), "hist", req.Path, vh.I(int64(ttl/time.Second)))
+			continue
+		}
+		out.Op(c18InfoString(resp.WrapInfo.CreationPath, resp.WrapInfo.TTL), "hist", req.Path, vh.I(int64(ttl/time.Second)))
+		tok := resp.WrapInfo.Token
+		for _, st := range steps {
+			switch st {
+			case 'L':
+				r, e := do(&logical.Request{Operation: logical.UpdateOperation, Path: "sys/wrapping/lookup", ClientToken: other, Data: map[string]any{"token": tok}})
+				res := class(r, e)
+				if e == nil && r != nil && r.Data != nil && r.Data["creation_path"] != nil {
+					p, _ := r.Data["creation_path"].(string)
+					secs, _ := r.Data["creation_ttl"].(float64)
+					fresh := "stale"
+					switch ct := r.Data["creation_time"].(type) {
+					case string:
+						if tm, perr := time.Parse(time.RFC3339Nano, ct); perr == nil && tm.After(t0) && tm.Before(time.Now().Add(time.Second)) {
+							fresh = "fresh"
+						}
+					case time.Time:
+						if ct.After(t0) && ct.Before(time.Now().Add(time.Second)) {
+							fresh = "fresh"
+						}
+					}
+					res = vh.Sprintf("path:%s/ttl:%d/time:%s", p, int64(secs), fresh)
+				}
+				out.Op(res, "hlookup")
+			case '3':
+				t0 = time.Now().Add(-time.Second)
+				r, e := do(&logical.Request{Operation: logical.UpdateOperation, Path: "sys/wrapping/rewrap", ClientToken: other, Data: map[string]any{"token": tok}})
+				res := class(r, e)
+				if e == nil && r != nil && r.WrapInfo != nil && r.WrapInfo.Token != "" {
+					res = c18InfoString(r.WrapInfo.CreationPath, r.WrapInfo.TTL)
+					tok = r.WrapInfo.Token
+				}
+				out.Op(res, "hrewrap", "3")
+			case '1':
+				r, e := do(&logical.Request{Operation: logical.UpdateOperation, Path: "sys/wrapping/rewrap", ClientToken: tok})
+				res := class(r, e)
+				if e == nil && r != nil && r.WrapInfo != nil && r.WrapInfo.Token != "" {
+					res = c18InfoString(r.WrapInfo.CreationPath, r.WrapInfo.TTL)
+					tok = r.WrapInfo.Token
+				}
+				out.Op(res, "hrewrap", "1")
+			case 'U':
+				w := c18W{tok: tok, kind: kind, path: req.Path}
+				out.Op(vh.Catch(func() string { return c18Attempt(c, "unwrap3", w, other, root, nil) }), "hunwrap")
+			}
+		}
+	}
+}
+
 // c18Sequential: what the wrapping token's policy grants, and TTL expiry, on one core
 func c18Sequential(t *testing.T, out *vh.Out, rng *vh.Rand) {
 	_, c, root, _ := c19Setup(t)
@@ -403,6 +514,11 @@ func TestVerifC18(t *testing.T) {
 	defer out.Close()
 	rng := vh.NewRand(vh.Seed())
 	c18Sequential(t, out, rng.Fork(1<<41))
+	histRounds := 12
+	if vh.Thorough() {
+		histRounds = 120
+	}
+	c18History(t, out, rng.Fork(1<<44), vh.EnvInt("VERIF_C18H_ROUNDS", histRounds))
 	cases := vh.EnvInt("VERIF_C18_CASES", 150)
 	if vh.Thorough() {
 		cases = vh.EnvInt("VERIF_C18_CASES", 1500)
